@@ -429,7 +429,17 @@ async fn wire_run(c: &ReqCase, req: http::Request<B>) -> Result<(http::Version, 
     use hyperdriver::client::conn::Protocol as _;
     use tokio::io::{AsyncReadExt, AsyncWriteExt};
     let (client, mut peer) = tokio::io::duplex(1 << 16);
-    let alpn = if c.conn_h2 { Some(hyperdriver::info::Protocol::Http(http::Version::HTTP_2)) } else if c.preset & 64 != 0 { Some(hyperdriver::info::Protocol::Http(http::Version::HTTP_11)) } else { None };
+    // without h2: nothing negotiated, http/1.1, or a protocol id that says nothing about HTTP/2 ("h3", a foreign one)
+    let alpn = if c.conn_h2 {
+        Some(hyperdriver::info::Protocol::Http(http::Version::HTTP_2))
+    } else {
+        match (c.preset >> 6) & 3 {
+            0 => None,
+            1 => Some(hyperdriver::info::Protocol::Http(http::Version::HTTP_11)),
+            2 => Some(hyperdriver::info::Protocol::Http(http::Version::HTTP_3)),
+            _ => Some(hyperdriver::info::Protocol::Other("spdy/3".to_string())),
+        }
+    };
     let tls = (c.scheme_str() == "https" || c.scheme_str() == "wss" || alpn.is_some()).then(|| TlsConnectionInfo { server_name: None, validated_server_name: false, alpn });
     let stream = WireStream { inner: client, tls };
     let proto: HttpProtocol = std::panic::catch_unwind(|| HttpProtocol::from(c.version())).map_err(|_| "version conversion panicked".to_string())?;
